@@ -130,7 +130,7 @@ def rec_scene(seed):
                                xy_bounds=(bval, bval) if bounds else None, localbkg_estimator=lbe)
     rec = {'id': seed, 'model': mkind, 'pos': [list(p) for p in ipos], 'h': h, 'w': w, 't': t, 'grouping': grouping, 'supplied': supplied,
            'mask': [list(z) for z in {tuple(z) for z in mask_l + nan_l}], 'nonfinite': bool(nan_l), 'lbkg_estimator': use_lbkg_est, 'maskblind_ok': True,
-           'fit': list(fit), 'local_bkg': use_lbkg, 'raised': False, 'check_recovery': False, 'scaled_ok': True, 'units_ok': True, 'iter_equal': True, 'n': n}
+           'fit': list(fit), 'local_bkg': use_lbkg, 'raised': False, 'check_recovery': False, 'scaled_ok': True, 'scaled_tiny_ok': True, 'scaled_huge_ok': True, 'units_ok': True, 'iter_equal': True, 'n': n}
     try:
         ph = mk()
         # a uniform error map (as float64, or as the integer array a constant read noise is often stored in): uniform weights, same fit
@@ -185,6 +185,16 @@ def rec_scene(seed):
         res3 = mk()(data * 3.0, mask=m, error=None if errmap is None else errmap * 3, init_params=init3)
         # (demanded for well-constrained scenes only: separately fitted heavy blends converge to ill-defined values)
         rec['scaled_ok'] = bool((not rec['check_recovery']) or np.allclose(np.asarray(res3['flux_fit']), 3.0 * np.asarray(res['flux_fit']), rtol=1e-5, atol=1e-5))
+        # ... also by the factors that separate detector counts from physical flux units (exact powers of two: 2^-30 ~ 1e-9, 2^30 ~ 1e9)
+        rec['scaled_tiny_ok'] = rec['scaled_huge_ok'] = True
+        if rec['check_recovery'] and errmap is None and seed % 2 == 0:
+            for tag, kk in (('scaled_tiny_ok', 2.0 ** -30), ('scaled_huge_ok', 2.0 ** 30)):
+                initk = init.copy()
+                if use_lbkg:
+                    initk['local_bkg'] = np.asarray(init['local_bkg']) * kk
+                resk = mk()(data * kk, mask=m, init_params=initk)
+                rec[tag] = bool(np.allclose(np.asarray(resk['flux_fit']) / kk, np.asarray(res['flux_fit']), rtol=1e-5, atol=1e-5)
+                                and np.allclose(np.asarray(resk['x_fit']), np.asarray(res['x_fit']), rtol=0, atol=1e-4))
         # the same scene with units: data in Jy, the supplied local backgrounds (and initial fluxes) written in mJy - the same physical
         # numbers must come back (or the call must refuse)
         rec['units_ok'] = True
